@@ -82,6 +82,23 @@ def drive(sc, b):
     # dense conversion and standard deviations of the outputs
     one = tu.tree_map(lambda s: s[-1], sol.u)
     one.to_multivariate_normal()
+    # monitor-executed probes on operands the run produced: the library itself never reverts or merges a
+    # conditional that carries BOTH a non-zero offset and non-unit scalings (backward transitions of the
+    # fixed-interval smoother do), so the monitor does it here with run states as operands
+    if cfg["strategy"] != "filter" and N >= 3 and sc["extras"].get("probe", True):
+        cond = sol.solution_full.posterior.conditional
+        nc = onp.asarray(cond.A).shape[0]
+        for i in range(min(nc - 1, 2)):
+            ci = tu.tree_map(lambda a: a[i], cond)
+            cj = tu.tree_map(lambda a: a[i + 1], cond)
+            rv = tu.tree_map(lambda s: s[i + 1], sol.u)
+            from probdiffeq.backend import linalg
+
+            ci.marginalise(rv)
+            ci.revert(rv, solve_triu=linalg.solve_triu)
+            ci.merge(cj)
+            ci.preconditioner_apply()
+            ci.apply_flat(rv.mean_flat)
     return ab, attempts
 
 
